@@ -24,6 +24,11 @@ class EngineSignal(BaseException):
     catches `Exception` must not swallow them)."""
 
 
+# set by symtv while an executed program runs (rule code hashes marker constants into its own dicts, where the
+# constant hash + symbolic equality is the faithful model; see _SymNum.__hash__)
+FAITHFUL_HASH = False
+
+
 class Abort(EngineSignal):
     """The current path condition is infeasible (or a `require` failed)."""
 
@@ -391,6 +396,16 @@ class _SymNum:
     __slots__ = ("e",)
 
     def __hash__(self):
+        # Python's hash of the number itself (hash-based containers compare proxies with ordinary numbers:
+        # `v in {1, 2}`); concretises - one path per value - like any other C boundary
+        # (run-time inputs are small). Wide values - marker constants - keep a constant hash: they meet each
+        # other in rule-side dicts, where equality then decides symbolically.
+        if FAITHFUL_HASH and type(self) is SymInt:
+            e = z3.simplify(self.e)
+            if z3.is_int_value(e):
+                return hash(e.as_long())
+            if _eng().branch(z3.And(e >= -8, e <= 8)):
+                return hash(self.__index__())
         return 7
 
     # comparisons -------------------------------------------------------------
@@ -578,7 +593,8 @@ class SymBool(_SymNum):
             return SymBool(s.e != term(o))
         return _SymNum.__ne__(s, o)
 
-    __hash__ = _SymNum.__hash__
+    def __hash__(s):
+        return hash(s.__bool__()) if FAITHFUL_HASH else 7
 
     def _as_int(s):
         return SymInt(_num(s))
